@@ -6,6 +6,8 @@ import LunarVerif.Spec.C11Glue
 Op lines (answers):
   cfg pinttl=<ns> verttl=<ns> tick=<ns> d0=<label>   → ok
   lookup x=<txn>                                     → data=<label|none> t=<ns>
+  lookupu x=<txn> d=<label>                          → data=<label|none> t=<ns> upd=<during|after>
+      (a lookup with an applied update landing while the transaction is being anchored, else right after it)
   update d=<label> ok=<0|1>                          → ok t=<ns> | err:haproxy
   advance d=<ns>                                     → t=<ns>
   stat                                               → pins=<n> vers=<n> pinq=<n> verq=<n>
@@ -40,8 +42,42 @@ def insertSorted (recs : List (Nat × Option Nat)) : List (Nat × Option Nat) :=
     le ++ x :: gt
   recs.foldl ins []
 
+/-- `GetTxnPoliciesData(x)` with the harness schedule (a fresh pin calls VacuumKey; the first one starts
+    the goroutine, which vacuums at once). -/
+def doLookup (s : RunSt) (x : Nat) : RunSt × String × Bool :=
+  let fresh := (mfind x s.st.pins).isNone
+  let (st1, ev) := step s.cfg s.st (.lookup x)
+  let (st2, sch2) :=
+    if fresh && s.sch.pinWake.isNone then
+      ((step s.cfg st1 .vacPins).1, { s.sch with pinWake := some (st1.now + s.sch.tick) })
+    else (st1, s.sch)
+  let out := match ev with
+    | some (.lookup t _ r) => s!"data={fmtData r} t={t}"
+    | _ => "internal-error"
+  ({ s with st := st2, sch := sch2 }, out, fresh)
+
+/-- An applied `UpdatePoliciesData(d)` with the harness schedule. -/
+def doUpdate (s : RunSt) (d : Nat) : RunSt × String :=
+  let (st1, _) := step s.cfg s.st (.update d true)
+  let (st2, sch2) :=
+    if s.sch.verWake.isNone then
+      ((step s.cfg st1 .vacVers).1, { s.sch with verWake := some (st1.now + s.sch.tick) })
+    else (st1, s.sch)
+  ({ s with st := st2, sch := sch2 }, s!"ok t={st1.now}")
+
 def runStep (s : RunSt) (line : String) : RunSt × String :=
   match words line with
+  | ["lookupu", w1, w2] =>
+    -- an update that completes while transaction x is being anchored (after the anchor is written and the
+    -- lock released, before the lookup returns): linearised as the lookup followed by the update
+    -- (Properties.C11.anchored_read_survives_reload: the anchored version's data is unaffected)
+    match kvNat [w1] "x", kvNat [w2] "d" with
+    | some x, some d =>
+      if !s.ready then (s, "bad-op") else
+      let (s1, out, fresh) := doLookup s x
+      let (s2, _) := doUpdate s1 d
+      (s2, out ++ (if fresh then " upd=during" else " upd=after"))
+    | _, _ => (s, "bad-op")
   | ["case", id] => ({}, s!"case {id}")
   | "cfg" :: ws =>
     match kvNat ws "pinttl", kvNat ws "verttl", kvNat ws "tick", kvNat ws "d0" with
@@ -54,29 +90,15 @@ def runStep (s : RunSt) (line : String) : RunSt × String :=
     match kvNat [w] "x" with
     | some x =>
       if !s.ready then (s, "bad-op") else
-      let fresh := (mfind x s.st.pins).isNone
-      let (st1, ev) := step s.cfg s.st (.lookup x)
-      -- a fresh pin calls VacuumKey; the first one starts the goroutine, which vacuums at once
-      let (st2, sch2) :=
-        if fresh && s.sch.pinWake.isNone then
-          ((step s.cfg st1 .vacPins).1, { s.sch with pinWake := some (st1.now + s.sch.tick) })
-        else (st1, s.sch)
-      let out := match ev with
-        | some (.lookup t _ r) => s!"data={fmtData r} t={t}"
-        | _ => "internal-error"
-      ({ s with st := st2, sch := sch2 }, out)
+      let (s1, out, _) := doLookup s x
+      (s1, out)
     | none => (s, "bad-op")
   | ["update", w1, w2] =>
     match kvNat [w1] "d", kvNat [w2] "ok" with
     | some d, some okn =>
       if !s.ready || okn > 1 then (s, "bad-op") else
       if okn == 0 then (s, "err:haproxy") else
-      let (st1, _) := step s.cfg s.st (.update d true)
-      let (st2, sch2) :=
-        if s.sch.verWake.isNone then
-          ((step s.cfg st1 .vacVers).1, { s.sch with verWake := some (st1.now + s.sch.tick) })
-        else (st1, s.sch)
-      ({ s with st := st2, sch := sch2 }, s!"ok t={st1.now}")
+      doUpdate s d
     | _, _ => (s, "bad-op")
   | ["advance", w] =>
     match kvNat [w] "d" with
@@ -169,6 +191,11 @@ def judgeStep (s : JudgeSt) (op out : String) : JudgeSt :=
     match kvNat [w] "x", (kv ows "data").bind parseData, kvNat ows "t" with
     | some x, some r, some t => { s with hist := .lookup t x r :: s.hist }
     | _, _, _ => { s with bad := some ("unparsable-output:" ++ pctEnc out) }
+  | ["lookupu", w1, w2] =>
+    let ows := words out
+    match kvNat [w1] "x", kvNat [w2] "d", (kv ows "data").bind parseData, kvNat ows "t" with
+    | some x, some d, some r, some t => { s with hist := .update t d :: .lookup t x r :: s.hist }
+    | _, _, _, _ => { s with bad := some ("unparsable-output:" ++ pctEnc out) }
   | ["update", w1, _] =>
     let ows := words out
     if out == "err:haproxy" then s else
